@@ -43,7 +43,22 @@ def run_power(ps, pos, box, conf, nthread=None, pos2=None, w=None, w2=None):
         return ps.calc_power(pos.copy(), box, nmesh=conf['nmesh'], paste=conf['paste'], compensated=conf['compensated'], interlaced=conf['interlaced'], nthread=nthread or conf['nthread'], dtype=conf['dtype'], pos2=None if pos2 is None else pos2.copy(), w=None if w is None else w.copy(), w2=None if w2 is None else w2.copy(), **kw)
 
 
+class Raised:
+    def __init__(self, e):
+        self.e = e
+
+
+def safe_power(*a, **k):
+    try:
+        return run_power(*a, **k)
+    except Exception as e:  # calc_power failing on a valid call is itself a broken symmetry
+        return Raised(e)
+
+
 def compare_tables(run, A, B, desc, what, floats=True):
+    if isinstance(B, Raised) or isinstance(A, Raised):
+        e = (B if isinstance(B, Raised) else A).e
+        return run.violation('power-run-raises-' + what, dict(error=f'{type(e).__name__}: {e}'[:200], transformation=what, **desc))
     if A.colnames != B.colnames or len(A) != len(B):
         return run.violation('power-table-shape', dict(transformation=what, cols_a=A.colnames, cols_b=B.colnames, **desc))
     for c in A.colnames:
@@ -126,7 +141,7 @@ def check(run):
         # 1. permutation
         perm = rng.permutation(N)
         run.ev()
-        if compare_tables(run, R0, run_power(ps, pos[perm], box, conf, w=None if W is None else W[perm]), desc, 'permutation'):
+        if compare_tables(run, R0, safe_power(ps, pos[perm], box, conf, w=None if W is None else W[perm]), desc, 'permutation'):
             continue
         nt('permutation')
         # 2. whole-cell translations with periodic wrap, one per axis and a combined one
@@ -138,7 +153,7 @@ def check(run):
             idx2 = (idx + np.array(sh) * 8) % (nmesh * 8)
             pos2 = (idx2 * (box / nmesh / 8)).astype(np.float32)
             run.ev()
-            if compare_tables(run, R0, run_power(ps, pos2, box, conf, w=W), dict(desc, shift_cells=list(sh)), 'translation'):
+            if compare_tables(run, R0, safe_power(ps, pos2, box, conf, w=W), dict(desc, shift_cells=list(sh)), 'translation'):
                 bad = True
                 break
             nt(('translation', sh))
@@ -149,7 +164,7 @@ def check(run):
             pos3 = (pos.astype(np.float64) + np.array([box, 0, -box])).astype(np.float32)
             if np.array_equal((pos3.astype(np.float64) - np.array([box, 0, -box])).astype(np.float32), pos):
                 run.ev()
-                if compare_tables(run, R0, run_power(ps, pos3, box, conf, w=W), dict(desc, shift='(+box,0,-box) unwrapped'), 'translation'):
+                if compare_tables(run, R0, safe_power(ps, pos3, box, conf, w=W), dict(desc, shift='(+box,0,-box) unwrapped'), 'translation'):
                     continue
                 nt('translation-unwrapped')
         # 3. thread counts
@@ -157,7 +172,7 @@ def check(run):
             if ntc == conf['nthread']:
                 continue
             run.ev()
-            if compare_tables(run, R0, run_power(ps, pos, box, conf, nthread=ntc, w=W), dict(desc, other_nthread=ntc), 'nthread'):
+            if compare_tables(run, R0, safe_power(ps, pos, box, conf, nthread=ntc, w=W), dict(desc, other_nthread=ntc), 'nthread'):
                 bad = True
                 break
             nt(('nthread', ntc))
@@ -165,7 +180,7 @@ def check(run):
             continue
         # 4. cross with itself equals auto
         run.ev()
-        if compare_tables(run, R0, run_power(ps, pos, box, conf, pos2=pos, w=W, w2=W), desc, 'cross-equals-auto'):
+        if compare_tables(run, R0, safe_power(ps, pos, box, conf, pos2=pos, w=W, w2=W), desc, 'cross-equals-auto'):
             continue
         nt('cross')
         # 4b. the very same array object passed as both fields, and the caller's positions afterwards
@@ -174,7 +189,10 @@ def check(run):
         with warnings.catch_warnings():
             warnings.simplefilter('ignore')
             kw = dict(conf['kw'])
-            Rs = ps.calc_power(p_same, box, nmesh=conf['nmesh'], paste=conf['paste'], compensated=conf['compensated'], interlaced=conf['interlaced'], nthread=conf['nthread'], dtype=conf['dtype'], pos2=p_same, w=None if W is None else W.copy(), w2=None if W is None else W.copy(), **kw)
+            try:
+                Rs = ps.calc_power(p_same, box, nmesh=conf['nmesh'], paste=conf['paste'], compensated=conf['compensated'], interlaced=conf['interlaced'], nthread=conf['nthread'], dtype=conf['dtype'], pos2=p_same, w=None if W is None else W.copy(), w2=None if W is None else W.copy(), **kw)
+            except Exception as e:
+                Rs = Raised(e)
         if compare_tables(run, R0, Rs, dict(desc, pos2='same array object'), 'cross-equals-auto'):
             continue
         moved = np.abs(((p_same.astype(np.float64) - pos.astype(np.float64)) + box / 2) % box - box / 2).max() if len(pos) else 0.0
@@ -185,7 +203,7 @@ def check(run):
         # 5. particle-independent columns
         other, _ = lattice(rng, max(10, N // 3), nmesh, box, clustered=False)
         run.ev()
-        if compare_tables(run, R0, run_power(ps, other, box, conf), desc, 'other-particles', floats=False):
+        if compare_tables(run, R0, safe_power(ps, other, box, conf), desc, 'other-particles', floats=False):
             continue
         nt('other-particles')
         if run.too_many():
